@@ -655,6 +655,9 @@ void oracle_c08(Plan const& p, ChkptView const& v, Report& rep)
         for (std::size_t i = 0; i != n; ++i)
         {
             ref[i] = rv.weights[i] * std::pow(rv.adj[i], v.beta);
+            // a product that underflows to zero in the numeric type disables the channel there; the
+            // reference follows (outside the exponent range the property cannot be met)
+            if (round_to(p.nt, ref[i]) == 0) ref[i] = 0;
             s += ref[i];
         }
         if (!(s > 0) || !std::isfinite(s)) continue;
@@ -1465,7 +1468,7 @@ void oracle_c19(Plan const& p, RunCtl const& ctl, RunOut const& out, ChkptView c
                 lo /= tot;
                 hi /= tot;
                 ld const tol = (4 + rv.weights.size()) * eps;
-                if (!(u >= lo - tol && u <= hi + tol))
+                if (!(u >= lo * (1 - tol) && u <= hi * (1 + tol)))
                 {
                     rep.fail("C19", "channel-not-from-recorded-weights", key, fmt(
                         "iteration %llu call %llu: selector %.21Lg, channel %u covers [%.21Lg, %.21Lg] of the recorded weights",
@@ -1685,7 +1688,10 @@ void oracle_c19_first(Plan const& p, IWorld const& world, ChkptView const& v, Re
     for (std::size_t i = 0; i != n; ++i)
     {
         ref[i] /= s2;
-        if ((in[i] == 0) != (used[i] == 0) || !(std::fabs(used[i] - ref[i]) <= (n + 4) * eps * ref[i]))
+        // subnormal weights: only "zero stays zero" is checked
+        bool const coarse = !in_domain(p.nt, ref[i]);
+        if ((in[i] == 0) != (used[i] == 0) ||
+            (!coarse && !(std::fabs(used[i] - ref[i]) <= (n + 4) * eps * ref[i])))
         {
             rep.fail("C19", "first-state", key, fmt(
                 "first iteration: weight %zu is %.21Lg, normalised user weight is %.21Lg", i, used[i], ref[i]));
